@@ -55,13 +55,15 @@ pub struct ProcCase {
     pub sink: Sink,
     /// shim plan on the output class, e.g. "o:*:l:1" — empty = no injected fault
     pub plan: String,
+    /// bytes of a stale, longer file already sitting at the `-o` output path (0 = the path is new)
+    pub stale: usize,
     pub hash_seed: u64,
 }
 
 impl ProcCase {
     pub fn to_json(&self) -> Value {
         json!({"engine": ENGINE_B, "program": self.spec.to_json(), "profile": self.profile.name(), "sink": self.sink.name(),
-               "plan": self.plan, "hash_seed": self.hash_seed})
+               "plan": self.plan, "stale": self.stale, "hash_seed": self.hash_seed})
     }
     pub fn from_json(v: &Value) -> Option<ProcCase> {
         Some(ProcCase {
@@ -69,6 +71,7 @@ impl ProcCase {
             profile: Profile::from_name(v.get("profile")?.as_str()?)?,
             sink: Sink::from_name(v.get("sink")?.as_str()?)?,
             plan: v.get("plan")?.as_str()?.to_string(),
+            stale: v.get("stale").and_then(|x| x.as_u64()).unwrap_or(0) as usize,
             hash_seed: v.get("hash_seed")?.as_u64()?,
         })
     }
@@ -114,11 +117,13 @@ pub fn run_case(case: &ProcCase, prep: &Prepared) -> Ran {
             child.stdout = Out::Pipe;
         }
         Sink::DashOFile => {
+            if case.stale > 0 { std::fs::write(dir.join("of.bc"), vec![0xEEu8; prep.reference.len() + case.stale]).unwrap(); }
             args.extend(["x.json", "-o", "of.bc"]);
             child = Child::new(case.profile, &args);
         }
         Sink::DashODir => {
             std::fs::create_dir_all(dir.join("outdir")).unwrap();
+            if case.stale > 0 { std::fs::write(dir.join("outdir").join("x.bc"), vec![0xEEu8; prep.reference.len() + case.stale]).unwrap(); }
             args.extend(["x.json", "-o", "outdir"]);
             child = Child::new(case.profile, &args);
         }
@@ -200,7 +205,7 @@ pub fn judge(case: &ProcCase, prep: &Prepared, ran: &Ran) -> Option<(String, Str
 /// The fault-free `-o FILE` run decides whether the compile stage accepts this AST at all; a stage
 /// that refuses its input on every sink is C06's subject, not C08's.
 fn baseline_accepts(case: &ProcCase, prep: &Prepared) -> bool {
-    let base = ProcCase { sink: Sink::DashOFile, plan: String::new(), ..case.clone() };
+    let base = ProcCase { sink: Sink::DashOFile, plan: String::new(), stale: 0, ..case.clone() };
     let ran = run_case(&base, prep);
     ran.result.exit.is_success() || ran.result.exit.is_native_crash()
 }
@@ -236,6 +241,11 @@ fn minimise(case: &ProcCase, oracle: &str) -> ProcCase {
         c.profile = Profile::Debug;
         if still(&c) { best = c; }
     }
+    if best.stale > 1 {
+        let mut c = best.clone();
+        c.stale = 1;
+        if still(&c) { best = c; }
+    }
     best
 }
 
@@ -258,16 +268,22 @@ fn exercise(spec: &ProgSpec, rng: &mut Rng, per_program_random: usize) -> Out1 {
     };
     let profile = if rng.coin() { Profile::Debug } else { Profile::Release };
     let hash_seed = rng.next_u64();
-    if !baseline_accepts(&ProcCase { spec: spec.clone(), profile, sink: Sink::DashOFile, plan: String::new(), hash_seed }, &prep) {
+    if !baseline_accepts(&ProcCase { spec: spec.clone(), profile, sink: Sink::DashOFile, plan: String::new(), stale: 0, hash_seed }, &prep) {
         out.evaluations += 1;
         out.skipped = true;
         return out;
     }
     let mut cases: Vec<ProcCase> = Vec::new();
-    let mk = |sink: Sink, plan: String| ProcCase { spec: spec.clone(), profile, sink, plan, hash_seed };
+    let mk = |sink: Sink, plan: String| ProcCase { spec: spec.clone(), profile, sink, plan, stale: 0, hash_seed };
     // fault-free variants: every documented way of getting the bytes out
     for s in [Sink::StdoutFile, Sink::StdoutPipe, Sink::DashOFile, Sink::DashODir, Sink::StdinToStdout] {
         cases.push(mk(s, String::new()));
+    }
+    // durable state left by an earlier run: a longer stale file at the output path must be replaced, not overlaid
+    for s in [Sink::DashOFile, Sink::DashODir] {
+        let mut c = mk(s, String::new());
+        c.stale = 1 + rng.usize_below(300);
+        cases.push(c);
     }
     // kernel-provided hard fault
     cases.push(mk(Sink::StdoutDevFull, String::new()));
@@ -297,7 +313,7 @@ fn exercise(spec: &ProgSpec, rng: &mut Rng, per_program_random: usize) -> Out1 {
         out.fired_short += short;
         out.fired_eintr += eintr;
         out.fired_hard += hard;
-        if short + eintr + hard > 0 {
+        if short + eintr + hard > 0 || case.stale > 0 {
             out.distinct.push(digest_of(&(super::util::digest_bytes(&prep.reference), case.sink.name(), &case.plan, case.profile)));
         }
         if let Some((o, d)) = judge(&case, &prep, &ran) {
